@@ -368,11 +368,16 @@ pub async fn scenario() {
 	);
 
 	let (wire, tx, rx) = Wire::new();
+	let (ping, req_timeout) = super::draw_ping();
+	let mut builder = Client::builder();
+	if let Some(p) = ping {
+		builder = builder.enable_ws_ping(p);
+	}
 	let client = Arc::new(
-		Client::builder()
+		builder
 			.max_concurrent_requests(max_conc)
 			.id_format(if id_kind_str { IdKind::String } else { IdKind::Number })
-			.request_timeout(Duration::from_secs(60))
+			.request_timeout(req_timeout)
 			.build_with_tokio(tx, rx),
 	);
 
